@@ -72,6 +72,16 @@ CHECKS = {
              "same operators (state after every action; outputs = float32 surrogate + f*(quantized - surrogate), "
              "constructor-constant vs updated factor, factor 0 = documented activation).",
         design="7 C07"),
+    "C08": dict(
+        spec="QStoch.tla + MC_QStoch + Trace_QStoch",
+        text="With the uniform draw as an explicit parameter TLC proves on every cell x draw that the stochastic "
+             "pipelines emit only the two codes adjacent to the clipped input, leave codes unchanged and satisfy the "
+             "exact unbiasedness identity (sum over the draw lattice = 8 x input); the real quantizers run with "
+             "tf.random.uniform replaced by that draw (fixed-point and po2 families, training phase) and with the "
+             "phase off (all stochastic quantizers vs their deterministic counterparts, rank 1 and 2 tensors); every "
+             "recorded call is judged by the TLC trace specification (adjacent, unchanged, direction for the draw, "
+             "bitwise equality at inference).",
+        design="7 C08"),
 }
 
 
